@@ -585,7 +585,7 @@ def rule_extcond(facts, mons, model):
 
 
 def rule_stack(facts):
-    r = RuleResult("C04-STACK", "ExecutionStack::pop_next re-pushes the popped instruction before returning Pending; NeedsDrain re-executes the same operator", floor=3)
+    r = RuleResult("C04-STACK", "ExecutionStack::pop_next re-pushes the popped instruction before returning Pending; NeedsDrain re-executes the same operator", floor=6)
     fid = "glaredb_core::execution::execution_stack::ExecutionStack::pop_next"
     rec = facts.fn(fid)
     if rec is None:
@@ -615,8 +615,34 @@ def rule_stack(facts):
     # NeedsDrain arm
     pf = adt_variants(facts, "glaredb_core::execution::operators::PollFinalize") or {}
     found = False
+    # which Instruction arm a block belongs to
+    iv = adt_variants(facts, "glaredb_core::execution::execution_stack::Instruction") or {}
+    arm_of = {}
+    for sb0, pl0, t0 in disc_switches(fn):
+        if fn.locals[pl0[0]].endswith("execution_stack::Instruction"):
+            for v0, tgt0 in switch_edges(t0):
+                name0 = next((n for n, d in iv.items() if d == v0), None)
+                if name0:
+                    for b0 in region_of_edges(fn, [(sb0, tgt0)]):
+                        arm_of[b0] = name0
     for sb, pl, t in disc_switches(fn):
         if not fn.locals[pl[0]].endswith("PollFinalize"):
+            continue
+        if arm_of.get(sb) == "FinalizeAbandonedOperator":
+            # an operator in front of an exhausted one: finalized to release what other partitions wait for, never drained
+            for v, tgt in switch_edges(t):
+                if v == pf.get("NeedsDrain"):
+                    reach = fn.reach(tgt, avoid_blocks=[sb], threaded=False) | {tgt}
+                    execs = []
+                    for p in pushes:
+                        if p.bb in reach and len(p.args) > 1:
+                            o = fn.origin(p.args[1], at=p.bb)
+                            if o[0] == "rv" and o[1][0] == "agg" and o[1][1][0] == "adt" and o[1][1][2] == "ExecuteOperator":
+                                execs.append(p)
+                    r.inst({"fn": fn.id, "arm": "FinalizeAbandonedOperator/NeedsDrain", "drains": bool(execs)}, not execs)
+                    if execs:
+                        r.violate(fn.id, "Abandoned-NeedsDrain-drains", "an abandoned operator is drained into the operator that reported Exhausted: "
+                                  "the exhausted operator is executed again and the finalize sequence of the rest of the pipeline is pushed twice", rec["file"], t[5])
             continue
         for v, tgt in switch_edges(t):
             if v == pf.get("NeedsDrain"):
@@ -640,6 +666,61 @@ def rule_stack(facts):
                               "the draining operator is never polled again", rec["file"], t[5])
     if not found:
         r.missing_anchor("match on PollFinalize in pop_next")
+    # Exhausted arm: (a) the operators before the exhausted one are finalized (a prober that is never finalized never reports
+    # "done probing" and the other partitions wait for it forever); (b) the arm throws pending instructions away — among them may be
+    # the `ExecuteOperator{is_pipeline_start: true}` of an operator that answered NeedsDrain earlier in this pipeline and whose other
+    # side (another pipeline pushing into it) is parked until it is polled again.
+    pe = adt_variants(facts, "glaredb_core::execution::operators::PollExecute") or {}
+    arm = None
+    for sb, pl, t in disc_switches(fn):
+        if fn.locals[pl[0]].endswith("operators::PollExecute"):
+            for v, tgt in switch_edges(t):
+                if v == pe.get("Exhausted"):
+                    arm = (sb, tgt, t)
+    if arm is None:
+        r.missing_anchor("PollExecute::Exhausted arm in pop_next")
+        return r
+    sb, tgt, t = arm
+    region = region_of_edges(fn, [(sb, tgt)])
+    fin_pushes = []
+    for p in pushes:
+        if p.bb in region and len(p.args) > 1:
+            o = fn.origin(p.args[1], at=p.bb)
+            if o[0] == "rv" and o[1][0] == "agg" and o[1][1][0] == "adt" and o[1][1][2].startswith("Finalize"):
+                flds, ops = o[1][1][3], o[1][2]
+                idx = fn.origin(ops[flds.index("operator_idx")], at=p.bb)
+                fin_pushes.append((p, o[1][1][2], idx))
+    # upstream finalize: operator_idx comes out of an iterator (the loop over 1..operator_idx), and the push is guarded by the
+    # per-operator `finalized` flag so that an operator is never finalized twice
+    up = [(p, v, idx) for p, v, idx in fin_pushes if idx[0] == "call" and idx[1].name.endswith("::next") or
+          (idx[0] == "call" and "Iterator" in idx[1].name)]
+    ok = bool(up)
+    guarded = False
+    for p, v, idx in up:
+        # `if !self.finalized[i]`: a switch on a value loaded through Vec::index dominates the push
+        for b in range(fn.n):
+            tt = fn.term(b)
+            if tt[0] == "switch" and fn.dominates(b, p.bb) and b in region:
+                o = fn.origin(tt[1], at=b) if tt[1][0] in ("c", "m") else None
+                if o and o[0] == "call" and "Index" in o[1].name:
+                    guarded = True
+    r.inst({"fn": fn.id, "arm": "PollExecute::Exhausted", "finalizes_operators_before_the_exhausted_one": ok, "guarded_by_finalized_flag": guarded}, ok and guarded)
+    if not ok:
+        r.violate(fn.id, "Exhausted-arm-upstream", "the Exhausted arm does not finalize the operators before the exhausted one: a join prober in this "
+                  "partition never reports that it is done and the partitions waiting for all probers hang (LEFT JOIN … LIMIT n)", rec["file"], t[5])
+    elif not guarded:
+        r.violate(fn.id, "Exhausted-arm-upstream-guard", "upstream operators are finalized without consulting the per-operator finalized flag: an operator "
+                  "that was already finalized (it drained as pipeline start) is finalized twice and its partition counter underflows", rec["file"], t[5])
+    # (b) discarded drain obligations
+    clears = [c for c in fn.calls() if c.bb in region and c.name.endswith("Vec::<T, A>::clear")]
+    inspects = [c for c in fn.calls() if c.bb in region and any(k in c.name for k in ("Vec::<T, A>::retain", "Vec::<T, A>::drain", "slice::<impl [T]>::iter", "Vec::<T, A>::pop"))]
+    if clears and not inspects:
+        r.inst({"fn": fn.id, "arm": "PollExecute::Exhausted", "discards_pending_instructions_unseen": True}, False)
+        r.violate(fn.id, "Exhausted-arm-discards-drain", "the Exhausted arm clears the instruction stack without looking at it: the pending "
+                  "ExecuteOperator{is_pipeline_start: true} of an operator that answered NeedsDrain earlier (e.g. the pull side of a UNION) is dropped, "
+                  "that operator is never polled again, and the pipeline pushing into its other side stays parked forever", rec["file"], clears[0].line)
+    else:
+        r.inst({"fn": fn.id, "arm": "PollExecute::Exhausted", "discards_pending_instructions_unseen": False})
     return r
 
 
